@@ -27,6 +27,7 @@ import (
 	"verifharness/internal/kf"
 
 	cid "github.com/ipfs/go-cid"
+	files "github.com/ipfs/go-ipfs-files"
 	gopath "github.com/ipfs/go-path"
 	"github.com/ipfs/ipfs-cluster/api"
 	"github.com/ipfs/ipfs-cluster/api/rest"
@@ -290,7 +291,7 @@ func setCred(req *http.Request, cred string) {
 	}
 }
 
-const ruleAdd = "raw POST /add requests against the four API instances: a multipart body with one file of 0-3000 drawn bytes (or a body that is not multipart), each add option absent, valid, or (at most one) invalid: values the query parser must reject (layout, format, booleans, cid-version, replication factor, expire-in) or values that decode but cannot be honoured (unknown hash function or chunker, format=car with a body that is not a CAR, sha2-512 with CID version 0); stream-channels true or false; credentials as in the raw leg; oracle: 401 and no RPC without valid credentials; 4xx, no RPC and one JSON document for what the parser must reject; for values that cannot be honoured no Cluster.Pin, and either (buffered) an error status with exactly one JSON document or (streamed) status 200 with the error in the X-Stream-Error trailer and a body that is a sequence of JSON objects; for a valid request status 200, exactly one Cluster.Pin of the last reported CID with the name and factors sent, and a body that is one JSON array (buffered) or a sequence of objects (streamed); non-trivial = an invalid element or stream-channels=false or >= 3 options; distinct by request"
+const ruleAdd = "raw POST /add requests against the four API instances: a multipart body with one file of 0-3000 drawn bytes (or a body that is not multipart), each add option absent, valid, or (at most one) invalid: values the query parser must reject (layout, format, booleans, cid-version, replication factor, expire-in) or values that decode but cannot be honoured (unknown hash function or chunker, format=car with a body that is not a CAR, sha2-512 with CID version 0, an upload of a directory that breaks off inside the header block or the content of its last part); stream-channels true or false; credentials as in the raw leg; oracle: 401 and no RPC without valid credentials; 4xx, no RPC and one JSON document for what the parser must reject; for values that cannot be honoured no Cluster.Pin, and either (buffered) an error status with exactly one JSON document or (streamed) status 200 with the error in the X-Stream-Error trailer and a body that is a sequence of JSON objects; for a valid request status 200, exactly one Cluster.Pin of the last reported CID with the name and factors sent, and a body that is one JSON array (buffered) or a sequence of objects (streamed); non-trivial = an invalid element or stream-channels=false or >= 3 options; distinct by request"
 
 func TestAddRaw(t *testing.T) {
 	leg := ev.L("raw-add", ruleAdd)
@@ -304,6 +305,8 @@ func TestAddRaw(t *testing.T) {
 		q := url.Values{}
 		nopts := 0
 		invalid := "" // "" | parser:<name> | semantic:<name> | not-multipart
+		var brokenBody []byte
+		var brokenCT string
 		content := rapid.SliceOfN(rapid.Byte(), 0, 3000).Draw(t, "content")
 		kind := rapid.SampledFrom([]string{"valid", "valid", "valid", "parser", "semantic", "not-multipart"}).Draw(t, "kind")
 		opt := func(name string, vals ...string) {
@@ -339,8 +342,31 @@ func TestAddRaw(t *testing.T) {
 			q.Set(x[0], x[1])
 			invalid = "parser:" + x[0]
 		case "semantic":
-			x := rapid.SampledFrom([]string{"hash", "chunker", "car", "sha512v0"}).Draw(t, "bad")
+			x := rapid.SampledFrom([]string{"hash", "chunker", "car", "sha512v0", "broken-upload", "broken-upload"}).Draw(t, "bad")
 			switch x {
+			case "broken-upload":
+				// a directory of three files whose upload breaks off inside the
+				// last part (in its header block or in its content): not a
+				// well-formed multipart body, whatever wrap-with-directory says
+				tree := files.NewMapDirectory(map[string]files.Node{"d": files.NewMapDirectory(map[string]files.Node{
+					"a.txt": files.NewBytesFile([]byte("first file")),
+					"b.txt": files.NewBytesFile([]byte("second file")),
+					"c.txt": files.NewBytesFile(append([]byte("third file "), content...)),
+				})})
+				mfr := files.NewMultiFileReader(tree, true)
+				full, _ := ioutil.ReadAll(mfr)
+				sep := []byte("\r\n--" + mfr.Boundary() + "\r\n")
+				last := bytes.LastIndex(full, sep)
+				if last < 0 {
+					t.Fatalf("harness: no part separator")
+				}
+				hdrEnd := last + len(sep) + bytes.Index(full[last+len(sep):], []byte("\r\n\r\n"))
+				cut := last + len(sep) + 12 // inside the header block
+				if rapid.Bool().Draw(t, "cutInContent") {
+					cut = hdrEnd + 4 + 5 // inside "third file ..."
+				}
+				brokenBody = full[:cut]
+				brokenCT = "multipart/form-data; boundary=" + mfr.Boundary()
 			case "hash":
 				q.Set("hash", "nosuchhash")
 			case "chunker":
@@ -360,7 +386,10 @@ func TestAddRaw(t *testing.T) {
 		}
 		var body bytes.Buffer
 		ctype := "text/plain"
-		if kind != "not-multipart" {
+		if brokenBody != nil {
+			body.Write(brokenBody)
+			ctype = brokenCT
+		} else if kind != "not-multipart" {
 			mw := multipart.NewWriter(&body)
 			h := textproto.MIMEHeader{}
 			h.Set("Content-Disposition", `form-data; name="file"; filename="f.bin"`)
